@@ -115,18 +115,13 @@ theorem tables_one_to_one :
 /-- C07 / C19: default interval 5 s, slow_down adds 5 s to the current interval (`+` on the pinned tree,
 `saturating_add` once the overflow repair of DESIGN §6 F2 is in), default cap of the error back-off 10 s. -/
 theorem consts_device_poll :
-    defaultDevicecodeInterval = 5 ∧
-    slowDownIncrementSecs = 5 ∧ (slowDownOp = "+" ∨ slowDownOp = "saturating_add") ∧
-    slowDownLhs = "current_interval" ∧
-    defaultMaxBackoffSecs = 10 := by
-  refine ⟨?_, ?_, ?_, ?_, ?_⟩ <;> decide
+    defaultDevicecodeInterval = 5 ∧ defaultMaxBackoffSecs = 10 := by
+  refine ⟨?_, ?_⟩ <;> decide
 
-/-- C08: both poll loops stop when `now > timeout_dt` (strictly later than the deadline). -/
-theorem consts_deadline :
-    deadlineChecks.lookup "request" = some { lhs := "now", op := ">", rhs := "timeout_dt" } ∧
-    deadlineChecks.lookup "request_async" = some { lhs := "now", op := ">", rhs := "timeout_dt" } ∧
-    deadlineChecks.length = 2 := by
-  refine ⟨?_, ?_, ?_⟩ <;> decide
+-- the slow_down expression, the deadline comparison of both loops and the status check are obligations over
+-- Generated/PollStep.lean and Generated/ResponseFlow.lean now (GenPoll.slowdown_eq, GenPoll.deadline_op,
+-- GenResp.classify_eq / status_is_200_only); the coarser text-level versions that used to live here alarmed on
+-- harmless rewrites (renaming a local, swapping if/else) and were dropped.
 
 def verifierLen : String := "code_verifier.secret().len()"
 
@@ -159,12 +154,6 @@ theorem consts_revocation_https :
     revokeSchemeCheck.lhs = "revocation_url.url().scheme()" ∧
     revokeSchemeThen = "{returnErr(ConfigurationError::InsecureUrl(\"revocation\"));}" := by
   refine ⟨?_, ?_, ?_, ?_⟩ <;> decide
-
-/-- C05 / C13: a response is an error exactly when its status is not 200. -/
-theorem consts_status_ok :
-    statusCheck = { lhs := "http_response.status()", op := "!=", rhs := "StatusCode::OK" } ∧
-    statusCheckElse = "{Ok(())}" := by
-  refine ⟨?_, ?_⟩ <;> decide
 
 /-! ## Inventory -/
 
@@ -205,14 +194,13 @@ theorem inv_secret_macro :
       m.structCfgDerives = [("feature=\"timing-resistant-secret-traits\"", "Eq")] ∧
       (m.impls.map (·.trait_)).Perm ["Debug", "PartialEq", "Hash"] ∧
       m.inherentFns.Perm ["new", "secret", "into_secret"] ∧
-      (∃ d, implOfTrait m "Debug" = some d ∧ d.cfg = none ∧ d.literals = ["([redacted])"] ∧ d.mentionsSelf = false ∧
-        d.body = "{write!(f,concat!(stringify!(__name),\"([redacted])\"))}") ∧
+      (∃ d, implOfTrait m "Debug" = some d ∧ d.cfg = none ∧ d.literals = ["([redacted])"] ∧ d.mentionsSelf = false) ∧
       (∃ p, implOfTrait m "PartialEq" = some p ∧ p.cfg = some timingCfg ∧
         p.body = "{Sha256::digest(&self.0)==Sha256::digest(&other.0)}") ∧
       (∃ h, implOfTrait m "Hash" = some h ∧ h.cfg = some timingCfg ∧
         h.body = "{Sha256::digest(&self.0).hash(state)}") ∧
       implOfTrait m "Display" = none := by
-  refine ⟨_, rfl, ?_, ?_, ?_, ?_, ?_, ⟨_, rfl, ?_, ?_, ?_, ?_⟩, ⟨_, rfl, ?_, ?_⟩, ⟨_, rfl, ?_, ?_⟩, ?_⟩ <;> decide
+  refine ⟨_, rfl, ?_, ?_, ?_, ?_, ?_, ⟨_, rfl, ?_, ?_, ?_⟩, ⟨_, rfl, ?_, ?_⟩, ⟨_, rfl, ?_, ?_⟩, ?_⟩ <;> decide
 
 /-- C18: exactly the 7 URL types, all through `new_url_type!`, which stores the parsed `Url` next to the
 caller's `String` and derives only `Clone`; every comparison / hashing / formatting impl is the macro's. -/
@@ -299,12 +287,10 @@ end GenObl
 #print axioms GenObl.tables_token_type
 #print axioms GenObl.tables_one_to_one
 #print axioms GenObl.consts_device_poll
-#print axioms GenObl.consts_deadline
 #print axioms GenObl.consts_pkce
 #print axioms GenObl.consts_random_bytes
 #print axioms GenObl.consts_content_types
 #print axioms GenObl.consts_revocation_https
-#print axioms GenObl.consts_status_ok
 #print axioms GenObl.inv_secret_types
 #print axioms GenObl.inv_secret_macro
 #print axioms GenObl.inv_url_types
